@@ -299,7 +299,7 @@ static inline int verify_string_vector(const void *buf, uoffset_t end, uoffset_t
 static inline int verify_table(const void *buf, uoffset_t end, uoffset_t base, uoffset_t offset,
         int ttl, flatcc_table_verifier_f tvf)
 {
-    uoffset_t vbase, vend;
+    uoffset_t vbase, vend, voffset;
     flatcc_table_verifier_descriptor_t td;
 
     /* Vectors pass on a decremented ttl that may already be zero: test for exhaustion, not for exactly zero. */
@@ -307,8 +307,11 @@ static inline int verify_table(const void *buf, uoffset_t end, uoffset_t base, u
     verify(check_header(end, base, offset), flatcc_verify_error_table_header_out_of_range_or_unaligned);
     td.table = base + offset;
     /* Read vtable offset - it is signed, but we want it unsigned, assuming 2's complement works. */
-    vbase = td.table - read_uoffset(buf, td.table);
+    voffset = read_uoffset(buf, td.table);
+    vbase = td.table - voffset;
     verify((soffset_t)vbase >= 0 && !(vbase & (voffset_size - 1)), flatcc_verify_error_vtable_offset_out_of_range_or_unaligned);
+    /* Readers subtract the offset as a signed value: the unsigned result must lie on the same side of the table. */
+    verify((soffset_t)voffset >= 0 ? vbase <= td.table : vbase > td.table, flatcc_verify_error_vtable_offset_out_of_range_or_unaligned);
     verify(vbase + voffset_size <= end, flatcc_verify_error_vtable_header_out_of_range);
     /* Read vtable size. */
     td.vsize = read_voffset(buf, vbase);
